@@ -225,7 +225,7 @@ def noise_prefix(rng: random.Random, kind: str) -> bytes:
 def resync_plan(rng: random.Random, kind: str, n: int) -> list[dict]:
     plan = [item_noise(noise_prefix(rng, kind))]
     for j in range(n):
-        plan.append(item_readout(rng, tag=j, nlines=rng.choice([0, 1, 3, 8])))
+        plan.append(item_readout(rng, tag=j, nlines=rng.choice([0, 1, 3, 8, 8, 160])))
     return plan
 
 
@@ -234,6 +234,9 @@ def chunkings_p1(rng: random.Random, data: bytes, plan, k: int) -> list[list[int
     outs = chunkings(rng, n, k)
     # the counterexample family of the pinned model: fixed sizes around the readout length, > 8 KiB, coprime sizes
     lens = [len(item_bytes(it)) for it in plan if it["k"] == "readout"]
+    if lens and max(lens) > 3000:
+        for sz in (36, 134, 512, 1000):
+            outs.append([sz] * (n // sz) + ([n % sz] if n % sz else []))
     if lens:
         L = rng.choice(lens)
         for sz in {max(1, L - 1), L + 1, rng.choice([8192, 8193, 9000, 16384]), rng.choice([7, 11, 13, 101, 1021])}:
@@ -247,7 +250,9 @@ def _mk_clean(args):
     rng = random.Random(seed)
     out = []
     for k in range(n):
-        if big and k % 4 == 0:
+        if k % 4 == 2:          # readouts of several KiB each ("each readout well below 8 KiB")
+            plan = clean_plan(rng, rng.randint(3, 12), rng.random() < 0.3, nlines=rng.choice([120, 180, 250]))
+        elif big and k % 4 == 0:
             plan = clean_plan(rng, rng.randint(30, 120), rng.random() < 0.5, nlines=rng.choice([2, 5, 20]))
         else:
             plan = clean_plan(rng, rng.randint(1, 10), rng.random() < 0.4)
@@ -455,7 +460,7 @@ def run_c04(chk: Check) -> int:
     chk.sample({"origin": t["origin"], "readout_tail": bytes(ro["o"][-24:]).decode("latin1"), "is_valid": ro["valid"]})
     chk.assumptions += ["'well-formed identification line' is the IEC 62056-21 shape transcribed in spec/p1/Ident.tla",
                         "readouts with more than one '!' are judged on clause (a) only (DESIGN §8-4)"]
-    return chk.finish(rule="spec->code: every Gen_P1 grammar case (8 idents x 4 line sets x 6 checksum modes, real CRC) directly and through the "
+    return chk.finish(rule="spec->code: every Gen_P1 grammar case (10 idents x 4 line sets x 6 checksum modes, real CRC) directly and through the "
                            "reader; code->spec: captured and generated readouts, every single-bit flip ("
                            + ("sampled above 100 octets" if quick else "all") + "), checksum field replaced by 0000/FFFF/correct/"
                            "lower-case/off-by-one/random/absent/non-hex; TLC recomputes CRC-16 and the identification check for each; "
